@@ -254,7 +254,9 @@ var smallStrings = []string{"", "a", "b", "ab", "abc", "x", "xy", "A", "hello", 
 // HostileStrings stress quoting, escaping and the snapshot syntax.
 var HostileStrings = []string{"", "a", "\"", "'", "\\", "a\"b", "it's", "a\\b", "\n", "\t", "a,b", "(", ")", "[]", "->", "a->b", "é", "✓", "日本", "%d", "%s%v", "a b", " ", "//", "/*x*/", "\x00", "\x7f", "C(string->\"x\")", "true", "nil", "0x1", "a\")))),E(EA(A(C(string->\"b",
 	// bytes that are not valid UTF-8: the printer renders them as \xNN escapes, which denote single bytes
-	"\xff", "caf\xe9", "\xc3\x28", "a\x80b"}
+	"\xff", "caf\xe9", "\xc3\x28", "a\x80b",
+	// texts that read like operators (translations that work on text)
+	" == ", "a != b", " && "}
 
 var smallFloats = []float64{0, 1, 2, 3, 0.5, 1.5, 2.5, -1, -0.5, 4, 0.25}
 
